@@ -265,8 +265,8 @@ class Spec(unit.UnitSpec):
 
 
 META = {
-    "text": 'Lean theorems over all LOS-protocol histories (any length, any objects): one_set — the four treadmill sets are duplicate-free, pairwise disjoint and their union is exactly the added-and-not-yet-swept objects (count = 1); sweep_exact — after flip(full) and any marking phase, release hands back exactly the unmarked objects of the allocation nursery (and, full GC, of the old to-space), each once, every marked object ends in to_space unswept; nursery_gc_keeps_mature; protocol_never_panics (TreadMill::copy\'s debug assertion cannot fire). Model = the five TreadMill methods over duplicate-free lists, compared exactly (all four sets after every op) with the real TreadMill.',
-    "note": 'Trusted: Lean kernel + standard axioms; HashSet modelled as duplicate-free list; the LOS protocol (allowed) is read off largeobjectspace.rs and is an assumption of the theorems; tie = sampling differential through verif::ds::TreadMill + verif_sets accessor with fake never-mapped ObjectReferences; malformed stream (protocol violations, mutex poisoning in debug, double membership in release) is compared model-vs-code only.',
+    "text": 'Two layers. (1) TreadMill: Lean theorems over all LOS-protocol histories (any length, any objects): one_set — the four treadmill sets are duplicate-free, pairwise disjoint and their union is exactly the added-and-not-yet-swept objects (count = 1); sweep_exact — after flip(full) and any marking phase, release hands back exactly the unmarked objects of the allocation nursery (and, full GC, of the old to-space), each once, every marked object ends in to_space unswept; nursery_gc_keeps_mature; protocol_never_panics (TreadMill::copy\'s debug assertion cannot fire). Model = the five TreadMill methods over duplicate-free lists, compared exactly (all four sets after every op) with the real TreadMill. (2) LargeObjectSpace itself (Model/LOS.lean: initialize_object_metadata, prepare, is_in_nursery, test_and_mark with its two masks, trace_object, release; histories = alloc / set_allocate_as_live / prepare f / trace of any live object any number of times / release f): los_one_set; los_bits (nursery bit <=> object in alloc or collection nursery, mark bit = mark_state <=> object in to_space/alloc nursery/(nursery GC) collection nursery); los_sweep_exact (release sweeps exactly the untraced objects of the collected sets — nursery always, mature iff full — each once; traced and as-live-allocated objects are kept; an object is enqueued exactly at its first trace in a GC that collects it, so at most once); los_nursery_gc_keeps_mature; los_swept_once_ever (#allocations = #sweeps + [alive] per address); los_protocol_never_panics. This model is compared exactly with the REAL LargeObjectSpace of real MMTk instances (GenImmix, SemiSpace; thorough: 6 plans) driven by hand through prepare/trace_object/release, printing mark_state, in_nursery_gc, the four sets and the raw bits of every live object after every op; swept ids come from the release_pages events of the sweep closure.',
+    "note": 'Trusted: Lean kernel + standard axioms; HashSet modelled as duplicate-free list; the LOS protocol (allowed) is read off largeobjectspace.rs and is an assumption of the theorems; tie = sampling differential through verif::ds::TreadMill + verif_sets accessor with fake never-mapped ObjectReferences; malformed stream (protocol violations, mutex poisoning in debug, double membership in release) is compared model-vs-code only. LOS layer: single GC worker (CAS succeeds at once; contention is C18), the plan-level protocol (Mmtk.LOS.allowed) is an assumption read off CommonPlan::prepare/release and ProcessEdgesWork, VO/unlog bits not modelled; tie = sampling differential through verif::los hooks on a real plan instance, no GC is run.',
     "technique": 'Lean 4 proof (invariant over a protocol transition system, induction over histories) + exact differential',
 }
 
@@ -352,7 +352,7 @@ class LosGen:
         shape = rng.choice(["mixed", "mixed", "mixed", "full-chain", "all-die", "nursery-only", "all-live"])
         pfull = {"mixed": 0.45, "full-chain": 1.0, "all-die": 0.6, "nursery-only": 0.0, "all-live": 0.5}[shape]
         pmark = {"all-die": 0.0, "all-live": 1.0}.get(shape, rng.choice([0.2, 0.5, 0.8]))
-        self.alloc(rng.randrange(1, max(2, self.nobj // 2 + 1)))
+        self.alloc(rng.randrange(1, self.nobj + 1))
         keep = set()
         for g in range(self.ngc):
             if shape in ("mixed", "full-chain") and rng.random() < 0.7:
@@ -364,7 +364,7 @@ class LosGen:
                 self.ops.append("los aslive 0"); self.aslive = False
             self.gc(rng.random() < pfull, pmark, keep if shape != "all-die" else set())
             if rng.random() < 0.8:
-                self.alloc(rng.randrange(0, 5))
+                self.alloc(rng.randrange(0, 9))
         return self.ops, shape
 
 
@@ -529,7 +529,7 @@ class LosSpec(unit.UnitSpec):
         return any(l.startswith("enq ") for l in out) and any(l.startswith("swept=[") and not l.startswith("swept=[]") for l in out)
 
     def summarize(self, cases, outs):
-        h, tags, gcs, objs, ngc, res = {}, {}, {"nursery": 0, "full": 0}, {}, {}, {}
+        h, tags, gcs, objs, ngc, res, surv = {}, {}, {"nursery": 0, "full": 0}, {}, {}, {}, {}
         for c, o in zip(cases, outs):
             tags[c.tag or "?"] = tags.get(c.tag or "?", 0) + 1
             na = sum(1 for x in c.ops if x.startswith("los alloc"))
@@ -538,20 +538,30 @@ class LosSpec(unit.UnitSpec):
             objs[b] = objs.get(b, 0) + 1
             b = str(ng) if ng <= 3 else "4-5" if ng <= 5 else "6+"
             ngc[b] = ngc.get(b, 0) + 1
+            streak, best = {}, 0
             for op, l in zip(c.ops, o):
                 k = " ".join(op.split()[1:2])
                 h[k] = h.get(k, 0) + 1
                 r = l.split(" ")[0].split("=")[0]
+                if op == "los release 1" and r == "swept":
+                    pp = los_parse(l)
+                    streak = {i: streak.get(i, 0) + 1 for i in (pp["T"] if pp else [])}
+                    best = max([best, *streak.values()])
                 res[r] = res.get(r, 0) + 1
                 if op == "los prepare 0":
                     gcs["nursery"] += 1
                 if op == "los prepare 1":
                     gcs["full"] += 1
-        return {"los_ops": h, "los_case_kind": tags, "los_gcs": gcs, "los_objects_per_case": objs, "los_gcs_per_case": ngc,
+            b = str(best) if best <= 3 else "4+"
+            surv[b] = surv.get(b, 0) + 1
+        return {"los_full_gcs_survived_in_a_row_max_per_case": surv, "los_ops": h, "los_case_kind": tags, "los_gcs": gcs, "los_objects_per_case": objs, "los_gcs_per_case": ngc,
                 "los_results": res, "los_plan_cases": {self.plan: len(cases)}}
 
 
-LOS_THEOREMS = []
+LOS_THEOREMS = ["Mmtk.LOS.los_one_set", "Mmtk.LOS.los_one_set_structured", "Mmtk.LOS.los_bits", "Mmtk.LOS.los_bits_mutator",
+                "Mmtk.LOS.los_sweep_exact", "Mmtk.LOS.los_nursery_gc_keeps_mature", "Mmtk.LOS.los_swept_once_ever",
+                "Mmtk.LOS.los_protocol_never_panics", "Mmtk.LOS.inv_step", "Mmtk.LOS.gc_run", "Mmtk.LOS.trace_young",
+                "Mmtk.LOS.trace_old", "Mmtk.LOS.trace_kept", "Mmtk.LOS.release_spec"]
 
 LOS_ASSUMPTIONS = [
     "los stream: single GC worker (the CAS of test_and_mark succeeds at once); concurrent workers are covered at the "
